@@ -1494,6 +1494,42 @@ Proof.
   apply is_empty_false in K2. rewrite K2. exact K1.
 Qed.
 
+(** digests are left alone by the sanitiser (so with --hashws the hypothesis
+    "sanitisation injective on the digests" is just "digests injective") *)
+Definition hex_chars : list N := [48; 49; 50; 51; 52; 53; 54; 55; 56; 57; 97; 98; 99; 100; 101; 102]%N.
+
+Lemma is_hex_In c : is_hex c = true -> In c hex_chars.
+Proof.
+  unfold is_hex, is_digit. rewrite orb_true_iff, !andb_true_iff, !N.leb_le. intro H.
+  assert (K : (c = 48 \/ c = 49 \/ c = 50 \/ c = 51 \/ c = 52 \/ c = 53 \/ c = 54 \/ c = 55 \/
+               c = 56 \/ c = 57 \/ c = 97 \/ c = 98 \/ c = 99 \/ c = 100 \/ c = 101 \/ c = 102)%N) by lia.
+  unfold hex_chars. simpl. intuition.
+Qed.
+
+Lemma hex_clean_ok :
+  forallb (fun c => memN c safe_alphabet &&
+                    forallb (fun r => negb (N.eqb c (fst r))) safe_replaces) hex_chars = true.
+Proof. vm_compute. reflexivity. Qed.
+
+Lemma digest_clean x : is_digest x -> clean x.
+Proof.
+  intros [_ H] c Hc. rewrite Forall_forall in H. specialize (H c Hc). apply is_hex_In in H.
+  pose proof hex_clean_ok as K. rewrite forallb_forall in K. specialize (K c H).
+  apply andb_true_iff in K. destruct K as [K1 K2]. split; [apply memN_In; exact K1 |].
+  intros r Hr. rewrite forallb_forall in K2. specialize (K2 r Hr).
+  apply negb_true_iff, N.eqb_neq in K2. exact K2.
+Qed.
+
+Lemma sanitize_digest x : is_digest x -> sanitize x = x.
+Proof. intro H. apply sanitize_clean. apply digest_clean. exact H. Qed.
+
+Lemma hashws_combos_injective (h : str -> str) (a b : str) :
+  is_digest (h a) -> is_digest (h b) -> (h a = h b -> a = b) ->
+  sanitize (wkey h true a) = sanitize (wkey h true b) -> a = b.
+Proof.
+  intros Ha Hb Hinj. unfold wkey. rewrite (sanitize_digest _ Ha), (sanitize_digest _ Hb). exact Hinj.
+Qed.
+
 (* ------------------------------------------------------------------------ *)
 (** * Part F -- boolean hygiene; refutations outside it *)
 
